@@ -14,6 +14,8 @@ import copy
 import json
 import os
 
+from . import guided
+
 HERE = os.path.dirname(os.path.abspath(__file__))
 FROZEN_PATH = os.path.join(HERE, "frozen_names.json")
 UFUNC_OPS = {"np.divide": ast.Div, "np.true_divide": ast.Div, "np.multiply": ast.Mult, "np.add": ast.Add, "np.subtract": ast.Sub, "np.matmul": ast.MatMult}
@@ -130,7 +132,10 @@ class _Orient(ast.NodeTransformer):
 
 
 def canon_tree(tree):
+    from .guided import NNF
+
     _Canon().visit(tree)
+    NNF().visit(tree)
     _Orient().visit(tree)
     _SelfDefault().visit(tree)
     for n in ast.walk(tree):
@@ -179,7 +184,8 @@ def build_frozen(prog_modules):
     for rel, tree in prog_modules:
         ft = function_table(tree)
         data[rel] = {"functions": {q: sorted(local_names(f)) for q, f in ft.items()},
-                     "calls": {q: [[t, n, list(k)] for _, t, n, k in call_shapes(f, sigs)] for q, f in ft.items()}}
+                     "text": {q: guided.signature_text(f) for q, f in ft.items()},
+                     "calls": {q: [[t, n, list(k)] for _, t, n, k in call_shapes(f, _with_super(sigs, tree, q))] for q, f in ft.items()}}
     return data
 
 
@@ -536,6 +542,18 @@ def inline_new_helpers(tree, known_functions, rel):
     return changed
 
 
+def _replace_stmt(root, old, new):
+    for parent in ast.walk(root):
+        for field in ("body", "orelse", "finalbody"):
+            b = getattr(parent, field, None)
+            if isinstance(b, list):
+                for i, x in enumerate(b):
+                    if x is old:
+                        b[i] = new
+                        return True
+    return False
+
+
 def _replace_node(root, old, new):
     for parent in ast.walk(root):
         for field, val in ast.iter_fields(parent):
@@ -599,10 +617,28 @@ def call_shapes(fn, sigs):
     for n in ast.walk(fn):
         if isinstance(n, ast.Call):
             text, last = _callee_key(n)
+            if text == "super().__init__":
+                last = "super().__init__"
             if last in sigs and not any(isinstance(a, ast.Starred) for a in n.args) and all(k.arg for k in n.keywords):
                 out.append((n, text, len(n.args), tuple(k.arg for k in n.keywords)))
     out.sort(key=lambda x: (x[0].lineno, x[0].col_offset))
     return out
+
+
+def _with_super(sigs, tree, q):
+    """sigs plus the entry 'super().__init__' = constructor signature of the first base of the class that owns method q."""
+    if not sigs or "." not in q:
+        return sigs
+    cname = q.split(".")[0]
+    for n in ast.walk(tree):
+        if isinstance(n, ast.ClassDef) and n.name == cname and n.bases:
+            b = n.bases[0]
+            bn = b.id if isinstance(b, ast.Name) else (b.attr if isinstance(b, ast.Attribute) else None)
+            if bn in sigs:
+                out = dict(sigs)
+                out["super().__init__"] = sigs[bn]
+                return out
+    return sigs
 
 
 def restore_call_shapes(fn, frozen_calls, sigs):
@@ -621,7 +657,8 @@ def restore_call_shapes(fn, frozen_calls, sigs):
         for (node, _, npos, kws), (onpos, okws) in zip(calls, old):
             if (npos, kws) == (onpos, okws):
                 continue
-            params, kwonly = sigs[_callee_key(node)[1]]
+            ck = _callee_key(node)
+            params, kwonly = sigs["super().__init__" if ck[0] == "super().__init__" else ck[1]]
             if len(node.args) > len(params):
                 continue
             bound = {}
@@ -652,14 +689,38 @@ def normalise(rel, tree, frozen, pure=frozenset(), sigs=None):
         return info
     known = frozen[rel]["functions"]
     info["inlined_helpers"] = inline_new_helpers(tree, set(known), rel)
+    texts = frozen[rel].get("text", {})
+
+    def guided_pass(tag):
+        ft_ = function_table(tree)
+        # innermost first, so that an enclosing function sees its nested functions already restored
+        for q in sorted(ft_, key=lambda x: -x.count(".<locals>.")):
+            fn_ = ft_[q]
+            if q not in texts or q not in known:
+                continue
+            new_fn, applied = guided.search(fn_, texts[q], known[q])
+            if new_fn is not None:
+                _replace_stmt(tree, fn_, new_fn)
+                info.setdefault("guided", []).append("%s[%s]: %s" % (q, tag, ", ".join(applied)))
+
+    guided_pass("a")
     ft = function_table(tree)
+    inl = False
     for q, fn in ft.items():
         k = set(known.get(q, [])) if q in known else None
         if k is None:
             continue
         if inline_new_locals(fn, k, pure):
             info["inlined_locals"].append(q)
+            inl = True
+    if inl:
+        guided_pass("b")
+    ft = function_table(tree)
+    for q, fn in ft.items():
+        if q not in known:
+            continue
         fc = frozen[rel].get("calls", {}).get(q)
-        if fc is not None and sigs and restore_call_shapes(fn, fc, sigs):
+        sg = _with_super(sigs, tree, q)
+        if fc is not None and sg and restore_call_shapes(fn, fc, sg):
             info.setdefault("restored_calls", []).append(q)
     return info
